@@ -37,6 +37,12 @@ type Session struct {
 	extra       []*proto.Event // async events (printf-done, synced, stacks)
 	Describe    *proto.Event
 	Configured  *proto.Event
+
+	// asynchronous disturbances (C20)
+	Holding     bool // a hold probe is blocked
+	lastDump    *proto.Event
+	latest      *proto.Event // park / return announced while settling
+	settledOnce bool
 	CallStarts  []*proto.Event
 }
 
@@ -101,7 +107,8 @@ func (s *Session) wait() *Stop {
 
 	defer timer.Stop()
 
-	var pending *proto.Event
+	pending := s.latest
+	s.latest = nil
 
 	release := func() *Stop {
 		st := &Stop{Kind: pending.Ev, Ev: pending, Cmds: s.pendingCmds}
@@ -165,6 +172,10 @@ func (s *Session) wait() *Stop {
 				pending = ev
 			case "cmd", "probe", "complete", "probe-hold", "probe-released":
 				s.pendingCmds = append(s.pendingCmds, ev)
+			case "winch":
+				c.WinchSeen = ev.Tag
+			case "printf-done":
+				c.PrintfDone++
 			case "describe":
 				s.Describe = ev
 			case "configured":
